@@ -27,11 +27,12 @@ Definition vis_bound (o t : vobj) : option Q :=
 (* float('inf') | a finite bound | TypeError raised by min(x, None) *)
 Inductive ext := EInf | EFin (q : Q) | EErr.
 
-(* visDist = min(visDist, visibilityBound(...)) *)
-Definition emin_opt (a : ext) (b : option Q) : ext :=
+(* visDist = min(visDist, visibilityBound(...)); [fixed] = fix-C08-visbound-none: an unknown bound is skipped
+   instead of being passed to min() *)
+Definition emin_opt (fixed : bool) (a : ext) (b : option Q) : ext :=
   match a, b with
   | EErr, _ => EErr
-  | _, None => EErr
+  | _, None => if fixed then a else EErr
   | EInf, Some q => EFin q
   | EFin x, Some q => EFin (qmin x q)
   end.
@@ -59,14 +60,14 @@ Definition req_dist (rels : list drel) (j : nat) : ext :=
                else acc) rels EInf.
 
 (* pruning.maxDistanceBetween(scenario, obj = i, target = j) *)
-Definition max_distance_between (ego : nat) (objs : list vobj) (rels : list (list drel)) (i j : nat) : ext :=
+Definition max_distance_between (fixed : bool) (ego : nat) (objs : list vobj) (rels : list (list drel)) (i j : nat) : ext :=
   let o := nth i objs no_obj in
   let t := nth j objs no_obj in
   let e := nth ego objs no_obj in
-  let v1 := if Nat.eqb i ego && req_vis t then emin_opt EInf (vis_bound e t) else EInf in
-  let v2 := if Nat.eqb j ego && req_vis o then emin_opt v1 (vis_bound e o) else v1 in
-  let v3 := if obs_is (observer o) j then emin_opt v2 (vis_bound t o) else v2 in
-  let v4 := if obs_is (observer t) i then emin_opt v3 (vis_bound o t) else v3 in
+  let v1 := if Nat.eqb i ego && req_vis t then emin_opt fixed EInf (vis_bound e t) else EInf in
+  let v2 := if Nat.eqb j ego && req_vis o then emin_opt fixed v1 (vis_bound e o) else v1 in
+  let v3 := if obs_is (observer o) j then emin_opt fixed v2 (vis_bound t o) else v2 in
+  let v4 := if obs_is (observer t) i then emin_opt fixed v3 (vis_bound o t) else v3 in
   match v4 with
   | EErr => EErr
   | _ => emin v4 (req_dist (nth i rels []) j)
